@@ -1,5 +1,5 @@
 (* C18 - the depth-limited search: invariants of every binding map it produces (well-formed, names below the
-   counter, counter monotone) and soundness with respect to the least model. *)
+   counter, counter monotone), and two facts about the least model. *)
 Require Import List NArith ZArith String Bool Lia.
 Require Import KV.Backward.Model KV.Backward.Spec KV.Backward.NameProofs KV.Backward.SubstProofs KV.Backward.RenameProofs.
 Import ListNotations.
@@ -23,30 +23,10 @@ Proof.
     + eapply derivable_mono; [exact (IH p' Hin)|lia].
 Qed.
 
-Definition erase_rule (r : rule) : rule := Rule (prem r) (concl r) [].
-Definition erase (R : list rule) : list rule := map erase_rule R.
-
-Lemma erase_unfiltered : forall R, known_C18 R = false -> erase R = R.
-Proof.
-  induction R as [|r R IH]; intros H; [reflexivity|]. cbn in H. apply orb_false_iff in H. destruct H as [H1 H2].
-  change (erase (r :: R)) with (erase_rule r :: erase R). rewrite (IH H2). f_equal.
-  destruct r as [ps cs fs]. cbn in *. destruct fs; [reflexivity|discriminate].
-Qed.
-
-Section Sound.
+Section Inv.
   Variable num : N -> Z.
   Variable F : list fact.
   Variable R : list rule.
-  Let LM := least_model num F (erase R).
-
-  Lemma lm_rule : forall r c nu,
-      In r R -> In c (concl r) -> Forall (fun p => LM (eval_atom nu p)) (prem r) -> LM (eval_atom nu c).
-  Proof.
-    intros r c nu Hr Hc Hp. destruct (lm_common_height _ _ _ _ _ Hp) as [h Hh].
-    exists (S h). apply (d_rule num F (erase R) h (erase_rule r) c nu); auto.
-    unfold erase. now apply in_map.
-  Qed.
-
   (* ---- invariants --------------------------------------------------------------------------------------- *)
   Definition good (n : N) (th : subst) : Prop := wf th /\ subst_below n th.
   Definition rec_inv (rec : atom -> subst -> N -> list subst * N) : Prop :=
@@ -90,24 +70,29 @@ Section Sound.
         split; [lia|assumption].
     Qed.
 
-    Lemma solve_concls_inv : forall sq th ps cs n res n',
+    Lemma Forall_filter : forall A (P : A -> Prop) f l, Forall P l -> Forall P (List.filter f l).
+    Proof.
+      intros A P f l H. rewrite Forall_forall in *. intros x Hx. apply filter_In in Hx. now apply H.
+    Qed.
+
+    Lemma solve_concls_inv : forall sq th ps fs cs n res n',
         good n th -> atom_below n sq -> Forall (atom_below n) ps -> Forall (atom_below n) cs ->
-        solve_concls rec sq th ps cs n = (res, n') ->
+        solve_concls num rec sq th ps fs cs n = (res, n') ->
         (n <= n')%N /\ Forall (good n') res.
     Proof.
-      intros sq th ps cs. induction cs as [|c cs IH]; intros n res n' Hth Hsq Hps Hcs H; cbn in H.
+      intros sq th ps fs cs. induction cs as [|c cs IH]; intros n res n' Hth Hsq Hps Hcs H; cbn in H.
       - injection H as <- <-. split; [lia|constructor].
       - inversion Hcs as [|? ? Hc1 Hc2]; subst.
         destruct (unify_patterns c sq th) as [rb|] eqn:Eu.
         + destruct (solve_prems rec ps [rb] n) as [r n1] eqn:E1.
-          destruct (solve_concls rec sq th ps cs n1) as [rs' n2] eqn:E2.
+          destruct (solve_concls num rec sq th ps fs cs n1) as [rs' n2] eqn:E2.
           injection H as <- <-.
           assert (Grb : good n rb).
           { destruct Hth as [W B]. split; [exact (unify_patterns_wf c sq th rb W Eu)|exact (unify_patterns_below n c sq th rb B Hc1 Hsq Eu)]. }
           destruct (solve_prems_inv _ _ _ _ _ (Forall_cons _ Grb (Forall_nil _)) Hps E1) as [L1 G1].
           destruct (IH n1 rs' n2 (good_mono _ _ _ L1 Hth) (atom_below_mono _ _ _ L1 Hsq)
                        (Forall_below_mono _ _ _ L1 Hps) (Forall_below_mono _ _ _ L1 Hc2) E2) as [L2 G2].
-          split; [lia|]. apply Forall_app. split; [|assumption]. eapply Forall_good_mono; eauto.
+          split; [lia|]. apply Forall_app. split; [|assumption]. apply Forall_filter. eapply Forall_good_mono; eauto.
         + eapply IH; eauto.
     Qed.
 
@@ -122,17 +107,17 @@ Section Sound.
     Qed.
 
     Lemma solve_rules_inv : forall sq th rs n res n',
-        good n th -> atom_below n sq -> solve_rules rec sq th rs n = (res, n') ->
+        good n th -> atom_below n sq -> solve_rules num rec sq th rs n = (res, n') ->
         (n <= n')%N /\ Forall (good n') res.
     Proof.
       intros sq th rs. induction rs as [|r rs IH]; intros n res n' Hth Hsq H; cbn in H.
       - injection H as <- <-. split; [lia|constructor].
       - destruct (rename_rule_variables r n) as [rr n1] eqn:Er.
-        destruct (solve_concls rec sq th (prem rr) (concl rr) n1) as [res1 n2] eqn:E1.
-        destruct (solve_rules rec sq th rs n2) as [rest n3] eqn:E2.
+        destruct (solve_concls num rec sq th (prem rr) (filters rr) (concl rr) n1) as [res1 n2] eqn:E1.
+        destruct (solve_rules num rec sq th rs n2) as [rest n3] eqn:E2.
         injection H as <- <-.
         destruct (renamed_below _ _ _ _ Er) as (L0 & Bp & Bc).
-        destruct (solve_concls_inv _ _ _ _ _ _ _ (good_mono _ _ _ L0 Hth) (atom_below_mono _ _ _ L0 Hsq) Bp Bc E1) as [L1 G1].
+        destruct (solve_concls_inv _ _ _ _ _ _ _ _ (good_mono _ _ _ L0 Hth) (atom_below_mono _ _ _ L0 Hsq) Bp Bc E1) as [L1 G1].
         assert (L01 : (n <= n2)%N) by lia.
         destruct (IH n2 rest n3 (good_mono _ _ _ L01 Hth) (atom_below_mono _ _ _ L01 Hsq) E2) as [L2 G2].
         split; [lia|]. apply Forall_app. split; [|assumption]. eapply Forall_good_mono; eauto.
@@ -148,11 +133,11 @@ Section Sound.
     Qed.
 
     Lemma helper_body_inv : forall q th n res n',
-        good n th -> atom_below n q -> helper_body F R rec q th n = (res, n') ->
+        good n th -> atom_below n q -> helper_body num F R rec q th n = (res, n') ->
         (n <= n')%N /\ Forall (good n') res.
     Proof.
       intros q th n res n' Hth Hq H. unfold helper_body in H.
-      destruct (solve_rules rec (substitute th q) th R n) as [rr n1] eqn:E. injection H as <- <-.
+      destruct (solve_rules num rec (substitute th q) th R n) as [rr n1] eqn:E. injection H as <- <-.
       assert (Hsq : atom_below n (substitute th q)) by (apply substitute_below; [apply Hth|assumption]).
       destruct (solve_rules_inv _ _ _ _ _ _ Hth Hsq E) as [L G].
       split; [assumption|]. apply Forall_app. split; [|assumption].
@@ -160,7 +145,7 @@ Section Sound.
     Qed.
   End Nest.
 
-  Lemma helper_inv : forall k, rec_inv (helper F R k).
+  Lemma helper_inv : forall k, rec_inv (helper num F R k).
   Proof.
     induction k as [|k IH]; intros q th n res n' Hth Hq H; cbn in H.
     - injection H as <- <-. split; [lia|constructor].
@@ -170,129 +155,15 @@ Section Sound.
   Lemma good_nil : forall n, good n [].
   Proof. intros n. split; [constructor|intros x t []]. Qed.
 
-  Lemma backward_chaining_wf : forall q th, In th (backward_chaining F R q) -> wf th.
+  Lemma backward_chaining_good : forall q, exists n, Forall (good n) (backward_chaining num F R q).
   Proof.
-    intros q th H. unfold backward_chaining in H.
-    destruct (helper F R (S MAX_DEPTH) q [] (first_fresh_variable_index q)) as [res n'] eqn:E.
-    destruct (helper_inv _ _ _ _ _ _ (good_nil _) (first_fresh_below q) E) as [_ G].
-    rewrite Forall_forall in G. now apply G.
+    intros q. unfold backward_chaining.
+    destruct (helper num F R (S MAX_DEPTH) q [] (first_fresh_variable_index q)) as [res n'] eqn:E.
+    destruct (helper_inv _ _ _ _ _ _ (good_nil _) (first_fresh_below q) E) as [_ G]. exists n'. exact G.
   Qed.
 
-  (* ---- soundness ---------------------------------------------------------------------------------------- *)
-  Definition rec_sound (rec : atom -> subst -> N -> list subst * N) : Prop :=
-    forall q th n th', In th' (fst (rec q th n)) -> forall nu, sat nu th' -> sat nu th /\ LM (eval_atom nu q).
-
-  Section NestSound.
-    Variable rec : atom -> subst -> N -> list subst * N.
-    Hypothesis Hrec : rec_sound rec.
-
-    Lemma solve_each_sound : forall p bs n th',
-        In th' (fst (solve_each rec p bs n)) ->
-        exists b, In b bs /\ forall nu, sat nu th' -> sat nu b /\ LM (eval_atom nu p).
-    Proof.
-      intros p bs. induction bs as [|b bs IH]; intros n th' H; cbn in H; [contradiction|].
-      destruct (rec p b n) as [r n1] eqn:E1. destruct (solve_each rec p bs n1) as [rs' n2] eqn:E2.
-      cbn in H. apply in_app_or in H. destruct H as [H|H].
-      - exists b. split; [now left|]. intros nu Hs. apply (Hrec p b n th'); [now rewrite E1|assumption].
-      - destruct (IH n1 th') as (b' & Hb' & Hs'); [now rewrite E2|]. exists b'. split; [now right|assumption].
-    Qed.
-
-    Lemma solve_prems_sound : forall ps bs n th',
-        In th' (fst (solve_prems rec ps bs n)) ->
-        exists b, In b bs /\ forall nu, sat nu th' -> sat nu b /\ Forall (fun p => LM (eval_atom nu p)) ps.
-    Proof.
-      intros ps. induction ps as [|p ps IH]; intros bs n th' H; cbn in H.
-      - exists th'. split; [assumption|]. intros nu Hs. split; [assumption|constructor].
-      - destruct (solve_each rec p bs n) as [bs' n1] eqn:E1.
-        destruct (IH bs' n1 th' H) as (b' & Hb' & Hs').
-        destruct (solve_each_sound p bs n b') as (b & Hb & Hsb); [now rewrite E1|].
-        exists b. split; [assumption|]. intros nu Hs.
-        destruct (Hs' nu Hs) as [S1 A1]. destruct (Hsb nu S1) as [S2 A2]. split; [assumption|now constructor].
-    Qed.
-
-    Lemma solve_concls_sound : forall sq th ps cs n th',
-        In th' (fst (solve_concls rec sq th ps cs n)) ->
-        exists c, In c cs /\ forall nu, sat nu th' ->
-                                        sat nu th /\ eval_atom nu c = eval_atom nu sq /\
-                                        Forall (fun p => LM (eval_atom nu p)) ps.
-    Proof.
-      intros sq th ps cs. induction cs as [|c cs IH]; intros n th' H; cbn in H; [contradiction|].
-      destruct (unify_patterns c sq th) as [rb|] eqn:Eu.
-      - destruct (solve_prems rec ps [rb] n) as [r n1] eqn:E1.
-        destruct (solve_concls rec sq th ps cs n1) as [rs' n2] eqn:E2.
-        cbn in H. apply in_app_or in H. destruct H as [H|H].
-        + destruct (solve_prems_sound ps [rb] n th') as (b & Hb & Hsb); [now rewrite E1|].
-          destruct Hb as [<-|[]]. exists c. split; [now left|]. intros nu Hs.
-          destruct (Hsb nu Hs) as [S1 A1]. destruct (unify_patterns_sound nu _ _ _ _ Eu S1) as [S0 He].
-          auto.
-        + destruct (IH n1 th') as (c' & Hc' & Hs'); [now rewrite E2|]. exists c'. split; [now right|assumption].
-      - destruct (IH n th' H) as (c' & Hc' & Hs'). exists c'. split; [now right|assumption].
-    Qed.
-
-    Lemma solve_rules_sound : forall sq th rs n th',
-        incl rs R -> In th' (fst (solve_rules rec sq th rs n)) ->
-        forall nu, sat nu th' -> sat nu th /\ LM (eval_atom nu sq).
-    Proof.
-      intros sq th rs. induction rs as [|r rs IH]; intros n th' Hincl H nu Hs; cbn in H; [contradiction|].
-      destruct (rename_rule_variables r n) as [rr n1] eqn:Er.
-      destruct (solve_concls rec sq th (prem rr) (concl rr) n1) as [res1 n2] eqn:E1.
-      destruct (solve_rules rec sq th rs n2) as [rest n3] eqn:E2.
-      cbn in H. apply in_app_or in H. destruct H as [H|H].
-      - destruct (solve_concls_sound sq th (prem rr) (concl rr) n1 th') as (c' & Hc' & Hsc); [now rewrite E1|].
-        destruct (Hsc nu Hs) as (S0 & He & Hp). split; [assumption|].
-        destruct (rename_rule_spec _ _ _ _ Er) as (vm & Hok & Hle & Epm & Ecl & _).
-        rewrite Ecl in Hc'. apply in_map_iff in Hc'. destruct Hc' as (c & <- & Hc).
-        rewrite <- He, <- eval_atom_pull.
-        apply (lm_rule r c); [apply Hincl; now left|assumption|].
-        rewrite Epm in Hp. rewrite Forall_forall in *. intros p Hin. rewrite eval_atom_pull.
-        apply Hp. now apply in_map.
-      - apply (IH n2 th'); [intros x Hx; apply Hincl; now right|now rewrite E2|assumption].
-    Qed.
-
-    Lemma match_facts_sound : forall sq th fs th',
-        incl fs F -> In th' (match_facts sq th fs) -> forall nu, sat nu th' -> sat nu th /\ LM (eval_atom nu sq).
-    Proof.
-      intros sq th fs. induction fs as [|f fs IH]; intros th' Hincl H nu Hs; cbn in H; [contradiction|].
-      assert (Hfs : incl fs F) by (intros x Hx; apply Hincl; now right).
-      destruct (unify_patterns sq (fact_pattern f) th) as [nb|] eqn:Eu; [|now apply (IH th')].
-      destruct H as [<-|H]; [|now apply (IH th')].
-      destruct (unify_patterns_sound nu _ _ _ _ Eu Hs) as [S0 He]. split; [assumption|].
-      rewrite He, fact_pattern_eval. exists O. apply d_fact. apply Hincl. now left.
-    Qed.
-
-    Lemma helper_body_sound : rec_sound (helper_body F R rec).
-    Proof.
-      intros q th n th' H nu Hs. unfold helper_body in H.
-      destruct (solve_rules rec (substitute th q) th R n) as [rr n1] eqn:E. cbn in H.
-      assert (X : sat nu th /\ LM (eval_atom nu (substitute th q))).
-      { apply in_app_or in H. destruct H as [H|H].
-        - eapply match_facts_sound; eauto. apply incl_refl.
-        - eapply (solve_rules_sound _ th R n th'); eauto; [apply incl_refl|now rewrite E]. }
-      destruct X as [S0 L]. split; [assumption|]. now rewrite eval_substitute in L.
-    Qed.
-  End NestSound.
-
-  Lemma helper_sound : forall k, rec_sound (helper F R k).
+  Lemma backward_chaining_wf : forall q th, In th (backward_chaining num F R q) -> wf th.
   Proof.
-    induction k as [|k IH]; intros q th n th' H; cbn in H; [contradiction|].
-    now apply (helper_body_sound _ IH q th n th').
+    intros q th H. destruct (backward_chaining_good q) as [n G]. rewrite Forall_forall in G. now apply (G th H).
   Qed.
-
-  (* every ground instance of every answer is in the least model of the program with its filters erased *)
-  Lemma sound_erased : forall q th, In th (backward_chaining F R q) ->
-                                    forall nu, LM (eval_atom nu (apply_answer th q)).
-  Proof.
-    intros q th H nu. pose proof (backward_chaining_wf q th H) as Hwf.
-    rewrite <- eval_atom_compose by assumption.
-    unfold backward_chaining in H.
-    apply (helper_sound _ _ _ _ _ H). now apply sat_compose.
-  Qed.
-End Sound.
-
-Lemma sound : forall num F R q th,
-    known_C18 R = false -> In th (backward_chaining F R q) ->
-    forall nu, least_model num F R (eval_atom nu (apply_answer th q)).
-Proof.
-  intros num F R q th Hk H nu. pose proof (sound_erased num F R q th H nu) as X.
-  now rewrite (erase_unfiltered R Hk) in X.
-Qed.
+End Inv.
